@@ -992,3 +992,33 @@ func loopExitConds(l *loopInfo) string {
 // c11LoopTable: loops on the externally reachable paths that the classifier does not recognise, each read and found
 // to terminate for every input.
 var c11LoopTable = []struct{ fn, exit, reason string }{}
+
+// panicConstruct names the construct of `in` that can panic or exit the process, or "".
+func panicConstruct(in ssa.Instruction) string {
+	switch x := in.(type) {
+	case *ssa.TypeAssert:
+		if !x.CommaOk {
+			return "typeassert " + firstN(pathOf(x), 60)
+		}
+	case *ssa.Panic:
+		if !strings.Contains(pathOf(x.X), "blocking select matched no case") {
+			return "panic"
+		}
+	case *ssa.BinOp:
+		if (x.Op == token.QUO || x.Op == token.REM) && isIntType(x.Type()) {
+			if _, isC := x.Y.(*ssa.Const); !isC {
+				return "integer division by " + firstN(pathOf(x.Y), 40)
+			}
+		}
+	case ssa.CallInstruction:
+		n := calleeName(x.Common())
+		sh := calleeShort(x.Common())
+		switch {
+		case strings.HasPrefix(n, "regexp.MustCompile"), n == "os.Exit":
+			return "call " + n
+		case (strings.HasPrefix(sh, "Fatal") || strings.HasPrefix(sh, "Panic")) && strings.Contains(n, "og"):
+			return "call " + shortName(n)
+		}
+	}
+	return ""
+}
